@@ -176,7 +176,7 @@ def _scenario(q, shape, forms, names, behaviours):
     return ''
 
 
-_Q = [{'q': q, 'shape': sh, 'f1': f} for q in range(3) for sh in ((0,) if q == 0 else (3, 5, 2)) for f in range(3)]
+_Q = [{'q': q, 'shape': sh, 'f1': f} for q in range(3) for sh in ((0,) if q == 0 else (3, 5, 2, 10)) for f in range(3)]
 
 
 @cond(quick=dict(parts=_Q, budget=100), thorough=dict(parts=_Q, budget=300))
